@@ -20,6 +20,7 @@ import (
 	"pgregory.net/rapid"
 
 	"verif/internal/esgen"
+	"verif/internal/harness"
 	"verif/internal/nalgen"
 )
 
@@ -58,10 +59,72 @@ var avoidKnown = map[string]bool{
 	// (MoreRbspData) never end. The code number needs a prefix of >= 62 zero bits. Shape (a necessary condition,
 	// ~5 % of the PPS cases): an HEVC PPS NAL unit whose RBSP contains 62 or more consecutive zero bits.
 	"hevc-pps-negative-read-width": false, // repaired in /repo (acb1de8)
+	// sei.ExtractCEA608sei (sei/sei4.go, exported) slices sd.payload[8:] without a length check: any SEIData whose
+	// payload is shorter than 8 bytes panics (slice bounds out of range), e.g.
+	// sei.ExtractCEA608sei(sei.NewSEIData(4, []byte{1, 2, 3})). DecodeUserDataRegisteredSEI checks the length before it
+	// calls it, so the defect needs the direct call (target sei.ExtractCEA608sei). Reproducer
+	// replay/C16/pending/new-panic-sei-ExtractCEA608sei-short-payload.json.
+	"sei-extractcea608-payload-shorter-than-8": false, // repaired in /repo (fix: 9cf50de)
 }
 
-// knownShape names the known-defect shape a case has ("" if none). Only the targets that parse slice headers
-// with parameter sets taken from the same input can have them.
+// libShapes are the avoidKnown entries whose shape predicate calls library parsers (the harness has no SPS/PPS
+// reader of its own). They are only evaluated while their switch is on, and then inside guardedShape.
+var libShapes = []string{"avc-slice-negative-read-width-from-sps", "hevc-slice-ctbsize-zero-from-sps", "hevc-slice-strps-delta-idx-wraps"}
+
+// guardedShape evaluates knownShape for the case that has just been persisted as the current case: the watchdog
+// is armed, a panic of a library parser inside a predicate is recovered and means "no known shape" (the case is
+// then executed and checkES reports the panic with the proper key).
+func guardedShape(c *esCase) (name string) {
+	if s := byteShape(c); s != "" {
+		return s
+	}
+	on := false
+	for _, n := range libShapes {
+		on = on || avoidKnown[n]
+	}
+	if !on {
+		return ""
+	}
+	harness.StartWatch(watchBudget(len(c.Data)))
+	defer harness.StopWatch()
+	defer func() {
+		if recover() != nil {
+			name = ""
+		}
+	}()
+	return knownShape(c)
+}
+
+// byteShape: the known-defect shapes that are predicates of the input bytes alone (harness code only).
+func byteShape(c *esCase) string {
+	switch c.Target {
+	case "sei.ExtractCEA608sei":
+		if len(c.Data) < 8 {
+			return "sei-extractcea608-payload-shorter-than-8"
+		}
+	case "hevc.PS+ParseSliceHeader":
+		for _, n := range splitSample(c.Data) {
+			if hevcPPSZeroRun(n) {
+				return "hevc-pps-negative-read-width"
+			}
+		}
+	case "hevc.ParsePPSNALUnit":
+		if hevcPPSZeroRun(c.Data) {
+			return "hevc-pps-negative-read-width"
+		}
+	case "hevc.DecodeHEVCDecConfRec+ParsePS":
+		for _, n := range hvcCNalus(c.Data) {
+			if hevcPPSZeroRun(n) {
+				return "hevc-pps-negative-read-width"
+			}
+		}
+	}
+	return ""
+}
+
+// knownShape names the known-defect shape a case has ("" if none) for the shapes that need parsed parameter sets
+// (libShapes). Only the targets that parse slice headers with parameter sets taken from the same input can have
+// them. Called through guardedShape only.
 func knownShape(c *esCase) string {
 	switch c.Target {
 	case "avc.PS+ParseSliceHeader":
@@ -100,11 +163,6 @@ func knownShape(c *esCase) string {
 				}
 			}
 		}
-		for _, n := range nalus {
-			if hevcPPSZeroRun(n) {
-				return "hevc-pps-negative-read-width"
-			}
-		}
 		// the parameter-set maps as the target builds them
 		sm, pm := map[uint32]*hevc.SPS{}, map[uint32]*hevc.PPS{}
 		for _, n := range nalus {
@@ -124,16 +182,6 @@ func knownShape(c *esCase) string {
 				if hevcSliceDeltaIdxWraps(n, sm, pm) {
 					return "hevc-slice-strps-delta-idx-wraps"
 				}
-			}
-		}
-	case "hevc.ParsePPSNALUnit":
-		if hevcPPSZeroRun(c.Data) {
-			return "hevc-pps-negative-read-width"
-		}
-	case "hevc.DecodeHEVCDecConfRec+ParsePS":
-		for _, n := range hvcCNalus(c.Data) {
-			if hevcPPSZeroRun(n) {
-				return "hevc-pps-negative-read-width"
 			}
 		}
 	case "hevc.ParseSliceHeader":
@@ -417,6 +465,10 @@ func compoundSeeds(target string) [][]byte {
 		return seeds.avcC
 	case "hevc.DecodeHEVCDecConfRec+ParsePS":
 		return seeds.hvcC
+	case "avc.SPS+ParseSEINalu":
+		return seiSeeds(seeds.avcSPS, seeds.avcSEI)
+	case "hevc.SPS+ParseSEINalu":
+		return seiSeeds(seeds.hevcSPS, seeds.hevcSEI)
 	}
 	return nil
 }
@@ -623,6 +675,10 @@ const (
 	gHEVCSample
 	gHEVCStream
 	gHEVCConf
+	gAVCSEI     // one SEI NAL unit written for the harvested SPS the plain target passes (avcSPSHrd)
+	gHEVCSEI    // (hevcSPSVui)
+	gAVCSPSSEI  // SPS, SEI+ as 4-byte length-prefixed sample; the SEI written for that SPS tree
+	gHEVCSPSSEI //
 )
 
 // grammarKind returns the packaging for a target and the share (percent) of grammar cases among its cases.
@@ -648,6 +704,14 @@ func grammarKind(target string) (kind int, pct int) {
 		return gHEVCSample, 45
 	case "hevc.DecodeHEVCDecConfRec", "hevc.DecodeHEVCDecConfRec+ParsePS":
 		return gHEVCConf, 35
+	case "avc.ParseSEINalu":
+		return gAVCSEI, 35
+	case "hevc.ParseSEINalu":
+		return gHEVCSEI, 35
+	case "avc.SPS+ParseSEINalu":
+		return gAVCSPSSEI, 60 // (this target exists for these inputs)
+	case "hevc.SPS+ParseSEINalu":
+		return gHEVCSPSSEI, 60
 	}
 	isHevc := strings.HasPrefix(target, "hevc.")
 	isAvc := strings.HasPrefix(target, "avc.")
@@ -752,7 +816,14 @@ func genGrammar(t *rapid.T, c *esCase, kind int) {
 			units, pack = []unit{sl}, single
 		default:
 			su, pu := avcSetUnits(sps, pps)
-			units = append(append(su, pu...), sl)
+			units = append(su, pu...)
+			if esgen.HEVCPct(t, 40, "with-sei") { // an SEI NAL unit written for the slice's SPS, in front of the slice
+				par := avcSEIParams(&sps[us].S)
+				u, tags := genSEIUnit(t, par, hostile)
+				units = append(units, u)
+				c.tags = append(append(append(c.tags, "grammar-sei-in-sample"), tags...), seiParamTags(par)...)
+			}
+			units = append(units, sl)
 			pack = lengthPrefixed
 			if kind == gAVCStream {
 				pack = func(n [][]byte) []byte { return annexB(t, n) }
@@ -795,7 +866,14 @@ func genGrammar(t *rapid.T, c *esCase, kind int) {
 			units, pack = []unit{sl}, single
 		default:
 			su, pu := hevcSetUnits(sps, pps)
-			units = append(append(su, pu...), sl)
+			units = append(su, pu...)
+			if esgen.HEVCPct(t, 40, "with-sei") {
+				par := hevcSEIParams(&sps[us].SPS)
+				u, tags := genSEIUnit(t, par, hostile)
+				units = append(units, u)
+				c.tags = append(append(append(c.tags, "grammar-sei-in-sample"), tags...), seiParamTags(par)...)
+			}
+			units = append(units, sl)
 			if rapid.Bool().Draw(t, "with-vps") {
 				vps := esgen.HEVCGenVPS(t, &sps[us].SPS, "v")
 				units = append([]unit{func(h *nalgen.Hostile) []byte { return nalgen.HEVCWriteVPSH(vps, h) }}, units...)
@@ -817,6 +895,38 @@ func genGrammar(t *rapid.T, c *esCase, kind int) {
 			complete[i] = rapid.Bool().Draw(t, "array_completeness")
 		}
 		pack = func(n [][]byte) []byte { return hvcCRecord(&sps.SPS, complete, n[:1], n[1:2], n[2:]) }
+	case gAVCSEI, gHEVCSEI:
+		par := avcSEIParams(avcSPSHrd)
+		if kind == gHEVCSEI {
+			par = hevcSEIParams(hevcSPSVui)
+		}
+		u, tags := genSEIUnit(t, par, hostile)
+		units, pack = []unit{u}, single
+		c.tags = append(append(c.tags, tags...), seiParamTags(par)...)
+		c.P |= 1 // the plain targets pass their harvested SPS
+	case gAVCSPSSEI:
+		tr := avcSPSForSEI(t)
+		par := avcSEIParams(&tr.S)
+		units = []unit{func(h *nalgen.Hostile) []byte { n, _ := nalgen.SerializeAVCSPSH(&tr, h); return n }}
+		c.tags = append(c.tags, seiParamTags(par)...)
+		for i, n := 0, rapid.IntRange(1, 2).Draw(t, "sei-units"); i < n; i++ {
+			u, tags := genSEIUnit(t, par, hostile)
+			units = append(units, u)
+			c.tags = append(c.tags, tags...)
+		}
+		pack = lengthPrefixed
+		c.P &^= 2 // parse the whole VUI (the HRD lengths are behind the aspect ratio)
+	case gHEVCSPSSEI:
+		tr := hevcSPSForSEI(t)
+		par := hevcSEIParams(&tr.SPS)
+		units = []unit{func(h *nalgen.Hostile) []byte { n, _ := nalgen.HEVCWriteSPSH(tr, h); return n }}
+		c.tags = append(c.tags, seiParamTags(par)...)
+		for i, n := 0, rapid.IntRange(1, 2).Draw(t, "sei-units"); i < n; i++ {
+			u, tags := genSEIUnit(t, par, hostile)
+			units = append(units, u)
+			c.tags = append(c.tags, tags...)
+		}
+		pack = lengthPrefixed
 	}
 	nalus := serialiseUnits(t, units, hostile)
 	c.Data = pack(nalus)
